@@ -549,6 +549,7 @@ func (r *RIB) addEntryInternal(ni string, op *spb.AFTOperation, oks, fails *[]*O
 
 	switch {
 	case opErr != nil:
+		verifTrace("try", op.GetId(), "failed")
 		*fails = append(*fails, &OpResult{
 			ID:    op.GetId(),
 			Op:    op,
@@ -561,6 +562,7 @@ func (r *RIB) addEntryInternal(ni string, op *spb.AFTOperation, oks, fails *[]*O
 		log.V(2).Infof("operation %d installed in RIB successfully", op.GetId())
 
 		r.rmPending(op.GetId())
+		verifTrace("try", op.GetId(), "installed")
 
 		*oks = append(*oks, &OpResult{
 			ID: op.GetId(),
@@ -607,7 +609,9 @@ func (r *RIB) addEntryInternal(ni string, op *spb.AFTOperation, oks, fails *[]*O
 				ni: ni,
 				op: op,
 			})
+			verifTrace("try", op.GetId(), "held")
 		default:
+			verifTrace("try", op.GetId(), "failed")
 			*fails = append(*fails, &OpResult{
 				ID:    op.GetId(),
 				Op:    op,
@@ -721,6 +725,7 @@ func (r *RIB) callResolvedEntryHook(optype constants.OpType, netinst string, aft
 	if err != nil {
 		return err
 	}
+	verifTrace("resolved.spawn", optype, netinst, aft, key)
 	go r.resolvedEntryHook(ribs, optype, netinst, aft, key)
 	return nil
 }
